@@ -77,9 +77,9 @@ func (e *Enc) instr(fr *Frame, b *ssa.BasicBlock, ins ssa.Instruction, st *State
 	case *ssa.MakeSlice:
 		ln := e.val(fr, x.Len)
 		cp := e.val(fr, x.Cap)
-		e.safe(fr, "make", reach, T(SBool, "(and (<= 0 %s) (<= %s %s) (<= %s 1152921504606846975))", ln.S, ln.S, cp.S, cp.S), pos)
-		ref := e.allocRef(st, reach)
 		el := x.Type().Underlying().(*types.Slice).Elem()
+		e.safe(fr, "make", reach, T(SBool, "(and (<= 0 %s) (<= %s %s) (<= %s %d))", ln.S, ln.S, cp.S, cp.S, maxElems(el)), pos)
+		ref := e.allocRef(st, reach)
 		es := e.sortOf(el)
 		mk := e.memKey(es)
 		zeroArr := Term{fmt.Sprintf("((as const %s) %s)", arraySort(SInt, es), e.zero(el).S), arraySort(SInt, es)}
@@ -343,7 +343,12 @@ func (e *Enc) unop(fr *Frame, x *ssa.UnOp, st *State, reach Term, pos string) {
 		v := e.def(x.Name()+fr.suffix, e.load(st, a))
 		fr.vals[x] = v
 		if a.kind != AConstGlobal {
-			e.loadFacts(st, reach, v, x.Type())
+			g := reach
+			if a.kind == AField || a.kind == ACell || a.kind == AElem {
+				// only allocated objects carry the heap invariant
+				g = and(reach, T(SBool, "(and (> %s 0) (< %s %s))", a.ref.S, a.ref.S, e.heapGet(st, e.allocKey()).S))
+			}
+			e.loadFacts(st, g, v, x.Type())
 		}
 	case token.NOT:
 		e.setVal(fr, x, not(e.val(fr, x.X)))
